@@ -272,8 +272,28 @@ pub fn build_case(class: u8, n: usize, k: usize, salt: u64) -> Case {
     Case { class, n, k, only: 0, a, b, xint }
 }
 
+/// Exact rescaling A·2^sa, B·2^sb (and X·2^(sb−sa)): the problem is the same up to powers of two, so every
+/// relative quantity (residual ratio, condition number) is unchanged — but absolute thresholds inside the
+/// library (e.g. a symmetry test with an absolute tolerance) see completely different numbers.
+pub const SCALES: [i32; 12] = [0, 0, 0, 0, 0, 0, -40, -70, -200, 40, 70, 200];
+
+pub fn scale_case(mut c: Case, sa: i32, sb: i32) -> Case {
+    let (fa, fb, fx) = (2f64.powi(sa), 2f64.powi(sb), 2f64.powi(sb - sa));
+    for v in c.a.iter_mut() {
+        *v *= fa;
+    }
+    for v in c.b.iter_mut() {
+        *v *= fb;
+    }
+    for v in c.xint.iter_mut() {
+        *v *= fx;
+    }
+    c
+}
+
 fn strat(classes: &'static [u8]) -> impl Strategy<Value = Case> {
-    (0..classes.len(), 0..SIZES.len(), 1usize..=6, any::<u64>()).prop_map(move |(ci, si, k, salt)| build_case(classes[ci], SIZES[si], k, salt))
+    (0..classes.len(), 0..SIZES.len(), 1usize..=6, any::<u64>(), 0..SCALES.len(), 0..SCALES.len())
+        .prop_map(move |(ci, si, k, salt, ia, ib)| scale_case(build_case(classes[ci], SIZES[si], k, salt), SCALES[ia], SCALES[ib]))
 }
 
 // ------------------------------------------------------------------------------------------------
@@ -407,6 +427,7 @@ pub fn check(ctx: &mut Ctx, c: &Case) -> R {
     ctx.sample(sub, || json!(c));
     ctx.label(sub, &format!("n:{}", if n <= 9 { "1-9" } else if n % 8 <= 1 || n % 8 == 7 { "8k±1" } else { "other" }));
     ctx.label(sub, &format!("k={}", if k == 1 { "1" } else if k == n { "n" } else { "2..6" }));
+    ctx.label(sub, &format!("scale(A)=2^{}", if anorm > 0.0 { ((anorm.log2() / 35.0).round() * 35.0) as i32 } else { 0 }));
     ctx.label(sub, &format!("cond:1e{:02}", (kappa.log10().max(0.0) / 2.0).floor() as i32 * 2));
     let symmetric = la::is_exactly_symmetric(a, n) || {
         // the library's predicate: |a_ij − a_ji| ≤ ε absolutely
@@ -507,7 +528,7 @@ pub fn run(ctx: &mut Ctx) {
 solution, dense N(0,1), SPD Gram, SPD graded to cond 1e0..1e10, strictly diagonally dominant, permuted+scaled triangular, rows scaled by \
 10^±5, Householder·diag(graded singular values)·Householder to cond 1e10, pivot-critical (diagonal x 1e-14 / zero diagonal entries / singular leading minor / zero leading block), symmetric indefinite with \
 positive diagonal (eigen-signs verified by the oracle's Jacobi), SPD with one entry moved across the symmetry threshold, SPD plus an asymmetric perturbation of 1e-3..1e-12}; n in 1..=32 weighted \
-toward 1-9 and 8k±1; k in 1..=6; plus the full (class, n) grid and hand-written symmetric indefinite matrices run once per entry point. All six \
+toward 1-9 and 8k±1; k in 1..=6; each problem also rescaled exactly by powers of two (A and B independently by 2^{0,±40,±70,±200}); plus the full (class, n) grid (each point also once rescaled) and hand-written symmetric indefinite matrices run once per entry point. All six \
 entry points run on every case. Non-trivial: n >= 2 and class != diagonal; distinct by hash of (class, n, k, entry selector, entries of A and B). \
 Cases whose oracle condition estimate exceeds 1e12 are counted under '<class>/skipped(cond>1e12)' and not evaluated."
         .into();
@@ -537,6 +558,11 @@ Cases whose oracle condition estimate exceeds 1e12 are counted under '<class>/sk
                 let k = 1 + ((n as u64 + s + (salt >> 7)) % 6) as usize;
                 let c = build_case(class, n, k, salt);
                 ctx.check_one(sub_of(class), &c, check);
+                // the same problem rescaled by powers of two (A down or up, B independently)
+                let (ia, ib) = ((salt >> 20) as usize % SCALES.len(), (salt >> 28) as usize % SCALES.len());
+                let (sa, sb) = (if SCALES[ia] == 0 { -70 } else { SCALES[ia] }, SCALES[ib]);
+                let c2 = scale_case(build_case(class, n, k, salt), sa, sb);
+                ctx.check_one(sub_of(class), &c2, check);
             }
         }
     }
